@@ -23,7 +23,7 @@ def _one(args):
     v = [x for x in V if x["property"] == prop][idx]
     t0 = time.time()
     try:
-        code, failed, out = analyse_variant(prop, [(v["file"], v["old"], v["new"])], tier="quick", base=root)
+        code, failed, out = analyse_variant(prop, [(v["file"], v["old"], v["new"])] + [tuple(x) for x in v.get("more", [])], tier="quick", base=root)
     except VariantError as exc:
         return {"desc": v["desc"], "kind": v["kind"], "outcome": "not applicable on this tree", "why": str(exc)[:120]}
     except Exception as exc:                      # analyser crash on a variant: report, never hide
